@@ -157,6 +157,10 @@ type cerVariant struct {
 	Note       string
 	Dual       bool // the server's dictionary defines application 777 twice: as auth and as acct
 	WFail      bool // the transport refuses every write
+	// Warm: the state machine has already accepted a CER (sharing the S6a application only) on another
+	// connection, whose local endpoint is WarmLocal
+	Warm      bool
+	WarmLocal string
 }
 
 const dualXML1 = `<?xml version="1.0" encoding="UTF-8"?><diameter><application id="777" type="auth" name="Dual-Auth"></application></diameter>`
@@ -206,8 +210,25 @@ func runCER(id int, c *cerSpec, v cerVariant, dapps []appRef, repo string) cerLi
 	case "empty", "absent":
 		l.Peer.OH = ""
 	}
-	s := newSMServer(set, v.Local, func(s *smServer) { s.SM.HandleFunc("ALL", s.record("ALL")) })
+	first := v.Local
+	if v.Warm {
+		first = v.WarmLocal
+	}
+	s := newSMServer(set, first, func(s *smServer) { s.SM.HandleFunc("ALL", s.record("ALL")) })
 	defer s.shutdown()
+	if v.Warm {
+		w := &cerSpec{OH: "present", OR: "present", Inband: "absent", HbH: abs.B4(1), E2E: abs.B4(1),
+			Items: []appItem{{T: "vsa", ID: []int{0, 0, 0, 0}, VPos: "first", Inner: []appItem{{T: "auth", ID: abs.B4(16777251), Inner: []appItem{}}}}}}
+		s.Conn.Feed(buildCER(w, dict.Default))
+		s.Conn.WaitOut(20, 3*time.Second)
+		s.Conn.WaitReaderBlocked(2 * time.Second)
+		if msgs, _ := splitMsgs(s.Conn.Out()); len(msgs) != 1 || parseCEA(&msgs[0]).RC != 2001 {
+			l.Note += " warm-up CER not accepted"
+		}
+		warm := s.Conn
+		s.Conn = s.addConn(v.Local)
+		s.extra = append(s.extra, warm)
+	}
 	if v.WFail {
 		s.Conn.OnWrite = func(int, []byte) memnet.WriteOutcome {
 			return memnet.WriteOutcome{N: 0, Err: &memnet.NetErr{Msg: "scripted write failure"}}
@@ -300,6 +321,7 @@ func CER(a Args) error {
 	base := cerVariant{Local: "10.0.0.1:3868", Note: "derived-ipv4"}
 	noaddr := cerVariant{Local: "pipe", Note: "no-address"}
 	wfail := cerVariant{Local: "10.0.0.1:3868", WFail: true, Note: "write-fails"}
+	warm := cerVariant{Local: "[2001:db8::7]:3868", Warm: true, WarmLocal: "10.1.2.3:3868", Note: "second-connection"}
 	id := 0
 	if a.Cases != "" {
 		err = ReadLines(a.Cases, func(line []byte) error {
@@ -314,6 +336,8 @@ func CER(a Args) error {
 				out.Emit(runCER(id, &c, noaddr, dapps, a.Repo))
 			case 4:
 				out.Emit(runCER(id, &c, wfail, dapps, a.Repo))
+			case 2, 6: // the same CER on a state machine that has already served another connection
+				out.Emit(runCER(id, &c, warm, dapps, a.Repo))
 			}
 			return nil
 		})
@@ -328,7 +352,7 @@ func CER(a Args) error {
 		{Local: "[2001:db8::1]:3868", Note: "derived-ipv6"},
 		{Local: "127.0.0.1:3868", Note: "derived-loopback"},
 		{Local: "[2001:db8::1]:3868", Configured: []net.IP{net.ParseIP("192.0.2.7")}, Note: "configured-ipv6-endpoint"},
-		noaddr, wfail,
+		noaddr, wfail, warm,
 	}
 	ids := [][]int{abs.B4(4), abs.B4(3), abs.B4(12345), abs.B4(1), abs.B4(16777251), abs.B4(0xffffffff), abs.B4(16777238), abs.B4(77), abs.B4(777), abs.B4(777)}
 	randItem := func() appItem {
